@@ -1,7 +1,7 @@
 import IpamVerif.AllocOrder
 import IpamVerif.System
 import IpamVerif.Props.C02
-import IpamVerif.Props.C04
+import IpamVerif.Justified
 /-!
 # C09 — pod CIDRs never overlap the configured service ranges
 
